@@ -789,19 +789,24 @@ Qed.
 
 (* ---- Request-URI: the service match ---- *)
 (* the Request-URI is written in the C14 grammar *)
+(* ... and strings.Fields (the proxy) splits the request line like the judge's ASCII split: no
+   UTF-8 encoding of a Unicode white-space rune inside it ([no_usp (jm_start jin) = true] is
+   sufficient, BytesLemmas.fields_go_no_usp; [wf_addr] allows bytes >= 128 in the Request-URI) *)
 Definition ruri_domain (jin : jmsg) : Prop :=
+  fields_go (jm_start jin) = fields (jm_start jin) /\
   forall q, j_request jin = Some q -> exists a, wf_addr a = true /\ jq_ruri q = rp_addr a.
 
 Lemma service_agree c lc from jin m q :
   t_addr from = lc_addr lc -> t_port from = listener_port lc false ->
   parse_start_line (jm_start jin) = Ok (m_start m) -> j_request jin = Some q ->
+  fields_go (jm_start jin) = fields (jm_start jin) ->
   (exists a, wf_addr a = true /\ jq_ruri q = rp_addr a) ->
   j_service_match c lc false (jq_ruri q) = is_my_message (new_my_name (c_name c)) from m.
 Proof.
-  intros Ha Hp PS Q (a & Hw & Eu).
+  intros Ha Hp PS Q G (a & Hw & Eu).
   unfold j_request, j_is_response in Q. unfold parse_start_line in PS.
   destruct (has_prefix (s2b "SIP/") (jm_start jin)); [discriminate Q|].
-  unfold parse_request_line in PS.
+  unfold parse_request_line in PS. rewrite G in PS.
   destruct (fields (jm_start jin)) as [|meth [|u [|v [|x y]]]]; try discriminate Q.
   injection Q as <-. cbn [jq_ruri] in *. subst u.
   rewrite (parse_addr_spec_rp a Hw) in PS. cbn [rbind] in PS. injection PS as PS.
@@ -919,7 +924,7 @@ Lemma lower_agree c lc from jin m q :
   hop_rel (j_lower c lc false q) (host_low c q) (lower_choice c from m).
 Proof.
   intros Ha Hp EH PR PS Q TD RD.
-  pose proof (service_agree c lc from jin m q Ha Hp PS Q (RD q Q)) as SV.
+  pose proof (service_agree c lc from jin m q Ha Hp PS Q (proj1 RD) (proj2 RD q Q)) as SV.
   unfold j_lower, j_static, host_low, lower_choice, static_hop, decoded_to.
   rewrite (j_request_to _ _ Q), EH, (j_first_get is_to (s2b "To") _ same_header_to), SV.
   set (my := is_my_message (new_my_name (c_name c)) from m).
@@ -1230,6 +1235,7 @@ Proof.
 Qed.
 Example ex_hyp_ruri : ruri_domain ex_jin.
 Proof.
+  split; [vm_compute; reflexivity|].
   intros q Q. vm_compute in Q. injection Q as <-. exists ex_ruri. split; vm_compute; reflexivity.
 Qed.
 
